@@ -1,17 +1,40 @@
-"""C17 -- version word (leaf part)"""
+"""C17 -- version word: leaf functions (bit for bit), the locking protocol (BorderDefs theorems), and a trace
+monitor on real runs: every CAS on a published version word must be accepted by the extracted
+VersionDefs.ver_write_ok on the word current at that instant (C17_monitor_sound: a lock is taken only when
+free, released only by unlock applied to the current word, and by its holder)."""
+import json
+
 from . import common as C
+from . import conc
 from . import leaf
+
+
+def conc_part(res):
+    n = 2 if res.tier == "quick" else 6
+    conc.conc_phase(res, "c17", ("deadlock", "coherent"), ["full", "two", "interior", "sublayer", "last"],
+                    ("put", "rem", "uput", "get"), False, 120 if res.tier == "quick" else 800,
+                    ("preempt1",) if res.tier == "quick" else ("preempt1", "preempt2", "pct"), n, vermon=True,
+                    label="version_word_trace_monitor")
+    conc.conc_phase(res, "c17", ("deadlock", "coherent"), ["collapse"], (), False, 200 if res.tier == "quick" else 1200,
+                    ("preempt1",) if res.tier == "quick" else ("preempt1", "preempt2", "pct"), 3 if res.tier == "quick" else 10,
+                    gen=conc.gen_collapse, vermon=True, label="version_word_trace_monitor_collapse")
 
 
 def run(tier, seed):
     res = C.Result("C17", tier, seed, level="proof")
     res.assumptions = [
         "theorems are about the Coq definitions (coq/*Defs.v); tie: every real leaf function is run on generated "
-        "arguments and compared bit for bit with the extracted definitions",
+        "arguments and compared bit for bit with the extracted definitions; the writes of real concurrent runs are "
+        "checked by the extracted monitor",
+        "sequentially consistent interleavings (scheduler serialises the real threads)",
     ]
-    return leaf.run_leaf_property(res, "c17", leaf.gen_ver, leaf.nontrivial_ver)
+    return leaf.run_leaf_property(res, "c17", leaf.gen_ver, leaf.nontrivial_ver, post=conc_part)
 
 
 def replay(path, tier, seed):
+    r = json.load(open(path))
+    if r.get("kind", "").startswith("conc-"):
+        print(json.dumps(r, indent=1)[:3000])
+        return 1
     res = C.Result("C17", tier, seed)
     return leaf.replay(res, "c17", path)
